@@ -1756,11 +1756,13 @@ let e_const_inc_of a v =
 let remove_var v l =
   filter (fun x -> negb (Z.eqb x v)) l
 
-(** val e_prod_of : expr -> z -> expr option **)
+(** val e_prod_of : z -> expr -> z -> expr option **)
 
-let e_prod_of a v =
+let e_prod_of w a v =
   if forallb (fun p -> Nat.eqb (count v (snd p)) (S O)) a
-  then Some (map (fun p -> ((fst p), (remove_var v (snd p)))) a)
+  then Some
+         (fold_left (fun acc p ->
+           e_add w acc (((fst p), (remove_var v (snd p))) :: [])) a [])
   else None
 
 (** val e_constant_part : expr -> z **)
